@@ -78,6 +78,7 @@ inductive Kind
   | enable (c : Nat)
   | disable (c : Nat)
   | action (fam c : Nat)
+  | state (dflt : Bool) (c : Nat)     -- `state< S, R >`; `dflt`: `S` is default-constructed (else from `in, st...`)
   deriving DecidableEq, Repr, Inhabited
 
 inductive ActKind | none | apply | apply0
@@ -85,7 +86,9 @@ inductive ActKind | none | apply | apply0
 
 /-- Action classes with a `match()` of their own (called by `normal< Rule >::match` instead of
     `tao::pegtl::match`): `change_action`, `disable_action`, `enable_action`, contrib `limit_depth`
-    and `limit_bytes`. -/
+    and `limit_bytes`, and the state-switching bases.  The two spellings selected by `multi` differ in
+    C++ only (how the state is constructed and which `success` overload is called); the model gives
+    them the same behaviour and the correspondence run checks both. -/
 inductive Wrap
   | none
   | changeAction (fam : Nat)
@@ -93,6 +96,8 @@ inductive Wrap
   | enableAction
   | limitDepth (n : Nat)
   | limitBytes (n : Nat)
+  | changeState (multi : Bool)                    -- `change_state< S >` / `change_states< S >` (`multi`)
+  | changeActionAndState (fam : Nat) (multi : Bool)   -- `change_action_and_state< A, S >` / `..._states< A, S >`
   deriving DecidableEq, Repr, Inhabited
 
 /-- What the action class template does for one rule.  The harness generates the
@@ -141,8 +146,11 @@ inductive Ev
   | failure (i : Nat) (c : Cursor)
   | unwind (i : Nat) (c : Cursor)
   | raise (i : Nat) (c : Cursor)
-  | apply (i : Nat) (b e : Cursor)
-  | apply0 (i : Nat) (c : Cursor)
+  | apply (i : Nat) (sd : Nat) (b e : Cursor)      -- `sd`: nesting depth of the state object the action was given
+  | apply0 (i : Nat) (sd : Nat) (c : Cursor)
+  | sctor (d : Nat)                                -- a state object of nesting depth `d` is constructed
+  | ssucc (d : Nat) (c : Cursor) (outer : Nat)     -- its `success( in, outer... )` is called at `c`
+  | sdtor (d : Nat)                                -- it is destroyed
   deriving DecidableEq, Repr, Inhabited
 
 /-- Mutable part of the parse input. -/
@@ -156,6 +164,7 @@ structure St where
 /-- Template parameters passed downwards (`Action`, `Control`, `States...`). -/
 structure Env where
   fam : Nat := 0
+  sd  : Nat := 0         -- nesting depth of the current state object (0: the states given to `parse`)
   deriving DecidableEq, Repr, Inhabited
 
 /-- Everything immutable during one parsing run. -/
